@@ -56,7 +56,9 @@ Record mcase := {
   mc_rx : list (str * list (str * bool));        (* pattern -> (name asked -> hit) *)
   mc_ac_ok : list (list str * bool);             (* pattern list -> NewMatcher succeeds *)
   mc_ac : list (list str * list (str * bool));   (* pattern list -> (string asked -> hit) *)
-  mc_impl : option (list (list N))               (* None = Build error; else per name the set bits *)
+  mc_impl : option (list (list N));              (* None = Build error; else per name the set bits *)
+  mc_stages : option (list (N * N * N))          (* per probed index: #trie keys, #keywords, #regexps held
+                                                    after the last AddSet; None = AddSet ended in error *)
 }.
 
 Definition o_rx_ok (c : mcase) (p : str) : bool := assoc str_eqb false (mc_rx_ok c) p.
@@ -91,8 +93,32 @@ Definition odiff (a b : option (list (list N))) : list N :=
   | _, _ => [0]
   end.
 
+(* where AddSet routes the patterns (by written kind): per probed index the number of trie keys, of keywords
+   handed to the automaton and of regexps *)
+Definition model_stages (c : mcase) : option (list (N * N * N)) :=
+  let s := add_sets chars (o_rx_ok c) (mc_sets c) in
+  if err s then None
+  else Some (map (fun i => (N.of_nat (length (to_trie s i)), N.of_nat (length (to_ac s i)),
+                            N.of_nat (length (regexps s i)))) (mc_idxs c)).
+Definition stage_eqb (a b : N * N * N) : bool :=
+  (fst (fst a) =? fst (fst b)) && (snd (fst a) =? snd (fst b)) && (snd a =? snd b).
+Fixpoint stages_diff (a b : list (N * N * N)) (n : N) : list N :=
+  match a, b with
+  | [], [] => []
+  | x :: a', y :: b' => (if stage_eqb x y then [] else [n]) ++ stages_diff a' b' (n + 1)
+  | _, _ => [n]
+  end.
+Definition ostages_diff (a b : option (list (N * N * N))) : list N :=
+  match a, b with
+  | None, None => []
+  | Some x, Some y => stages_diff x y 0
+  | _, _ => [0]
+  end.
+
 (* error codes: 1 impl<>model(packed trie)  2 impl<>spec  3 model(abstract trie)<>spec
-               5 model(packed trie)<>model(abstract trie) *)
+               5 model(packed trie)<>model(abstract trie)
+               8 impl<>model: a pattern was routed to another stage than its written kind says
+                 (position = index into the probed indices) *)
 Definition check_mcase (c : mcase) : list (N * N) :=
   let mp := run_packed c in
   let ma := run_abs c in
@@ -100,9 +126,10 @@ Definition check_mcase (c : mcase) : list (N * N) :=
   map (fun n => (n, 1)) (odiff (mc_impl c) mp)
   ++ map (fun n => (n, 2)) (odiff (mc_impl c) sp)
   ++ map (fun n => (n, 3)) (odiff ma sp)
-  ++ map (fun n => (n, 5)) (odiff mp ma).
+  ++ map (fun n => (n, 5)) (odiff mp ma)
+  ++ map (fun n => (n, 8)) (ostages_diff (mc_stages c) (model_stages c)).
 
-Definition explain_mcase (c : mcase) := (mc_impl c, run_packed c, run_abs c, run_spec c).
+Definition explain_mcase (c : mcase) := (mc_impl c, run_packed c, run_abs c, run_spec c, mc_stages c, model_stages c).
 
 (* signature: (#names with a hit, #names without, kinds present as a mask, build error?) *)
 Definition kind_bit (k : kind) : N := match k with KFull => 1 | KSuffix => 2 | KKeyword => 4 | KRegex => 8 end.
